@@ -198,7 +198,7 @@ def run(ctx):
             cs = "[" + "; ".join(zlist([zval(x) for x in (c or [])]) for c in r["content"]) + "]"
             terms.append("(CScen %s %s %s %s %s %s)" % (init, l["coq"], out, zlist(r["ic"]), cs, after_term(l)))
             refs.append(l)
-            if len(r.get("attempts") or []) != len(l.get("expects") or []) and not l.get("viol"):
+            if r.get("n_attempts", len(r.get("attempts") or [])) != len(l.get("expects") or []) and not l.get("viol"):
                 ctx.broken("correspondence:C06.path", "scenario %s (%s): %d attempts observed, %d on the predicted path\n%s" % (
                     l["id"], l["family"], len(r.get("attempts") or []), len(l.get("expects") or []), l.get("src")))
         elif k == "cancel":
